@@ -29,7 +29,7 @@ def srcSizes : List SrcSize := [
   { typeId := 12, name := "M_ME_TB_1", encSeq := 6, encIoa := 6, encVar := false, decMin := 6, decSeqCond := true },
   { typeId := 13, name := "M_ME_NC_1", encSeq := 5, encIoa := 5, encVar := false, decMin := 5, decSeqCond := true },
   { typeId := 14, name := "M_ME_TC_1", encSeq := 8, encIoa := 8, encVar := false, decMin := 8, decSeqCond := true },
-  { typeId := 15, name := "M_IT_NA_1", encSeq := 5, encIoa := 5, encVar := false, decMin := 5, decSeqCond := false },
+  { typeId := 15, name := "M_IT_NA_1", encSeq := 5, encIoa := 5, encVar := false, decMin := 5, decSeqCond := true },
   { typeId := 16, name := "M_IT_TA_1", encSeq := 8, encIoa := 8, encVar := false, decMin := 8, decSeqCond := true },
   { typeId := 17, name := "M_EP_TA_1", encSeq := 6, encIoa := 6, encVar := false, decMin := 6, decSeqCond := true },
   { typeId := 18, name := "M_EP_TB_1", encSeq := 7, encIoa := 7, encVar := false, decMin := 7, decSeqCond := true },
